@@ -51,6 +51,7 @@ SUITES = {
 CL_PROFILES = {
     "*": [("mix", 500, 6000), ("loss", 200, 2000), ("sleep", 150, 1500), ("keepalive", 150, 1500), ("collide", 150, 1500)],
     "C17": [("mix", 400, 5000), ("loss", 600, 6000), ("collide", 150, 1500)],
+    "C16": [("mix", 300, 3000), ("loss", 500, 5000), ("collide", 100, 1000)],
     "C33": [("mix", 300, 3000), ("keepalive", 700, 7000), ("sleep", 200, 2000)],
     "C06": [("mix", 300, 3000), ("collide", 800, 8000)],
     "C28": [("mix", 400, 4000), ("loss", 300, 3000), ("sleep", 300, 3000), ("keepalive", 200, 2000)],
@@ -307,11 +308,11 @@ PROPS.update({
               "theorems c02_* (one-step, all states) on top of C05/C21; monitor Spec.c02 on implementation traces"),
     "C16": gw("C16",
               "GATEWAY HALF: Lean theorems c16_setDup (a retransmission differs in the DUP flag only), c16_retry_resends, c16_retry_gives_up (RetryCount budget; timing "
-              "is C19), c16_puback / c16_pubrec / c16_pubrel / c16_pubcomp (+ duplicates ignored) for ALL states; monitor Spec.c16 (timer-driven copies carry DUP, repeat a "
-              "datagram already sent, stay within the budget) on implementation traces. The client-library half (handler exactly once, end-to-end completion under loss) "
-              "needs the client / system suites and is not claimed yet",
+              "is C19), c16_retry_suspended_while_asleep, c16_puback / c16_pubrec / c16_pubrel / c16_pubcomp (+ duplicates ignored) for ALL states; monitor Spec.c16 "
+              "(timer-driven copies carry DUP, repeat a datagram already sent, stay within the budget) on implementation traces. End-to-end completion under loss on a real "
+              "lossy link is NOT run (the system suite has a lossless link)",
               "theorems c16_* (gateway model); monitor Spec.c16",
-              assumptions=["partial: gateway side only"]),
+              assumptions=["partial: the two halves are proved and tied separately (gateway suite, client suite); their composition under loss is not executed"]),
     "C32": gw("C32",
               "Lean theorems c32_to_broker, c32_short_roundtrip, c32_to_client for ALL configurations, client IDs, IDs and names: predefined and short IDs read the same "
               "on both sides (both sides use GetTopicName(clientID, id) / the short-topic codec; the gateway never uses a shadowed '*' entry, via C05 and C21); monitors "
@@ -422,6 +423,10 @@ PROPS.update({
 })
 # client halves of properties that speak about both sides
 for _p, _note in (("C06", "client half: theorems c06_client_*; monitor ClientSpec.c06 (collide profile)"),
+                  ("C16", "CLIENT HALF (handler exactly once): theorems c16_client_publish2_silent (a QoS-2 PUBLISH, first or retransmitted, runs no callback), "
+                          "c16_client_publish2_opens, c16_client_pubrel_once (the PUBREL of an open exchange delivers once, answers PUBCOMP, forgets the exchange), "
+                          "c16_client_pubrel_unknown_silent / c16_client_second_pubrel_silent (a retransmitted PUBREL runs no callback) for ALL states of the client model; "
+                          "monitor ClientSpec.c16 (every QoS-2 callback run is covered by exactly one PUBREL of an open exchange) on traces of the real client; tie: client suite"),
                   ("C23", "client half: monitor ClientSpec.c23 on every datagram the real client sends (no theorem for the client half yet)"),
                   ("C27", "history half: theorems c27_dispatch / c27_no_match_no_callback / c27_unsubscribed; monitor ClientSpec.c27 (current subscriptions from the API results)"),
                   ("C31", "client half: theorems c31_client_auth_after_connect / c31_client_no_auth_without_user; monitor ClientSpec.c31")):
